@@ -9,11 +9,11 @@ L3 : written from the property statement with `math.comb` only (no Lean, no dadi
      a masked entry masks exactly its support; folded = fold(project(unfold)) = fold(project(S)) for F = fold(S);
      upward refused; `LowPass.projection_matrix(F=0)` rows.
 """
-import math, itertools, warnings
+import math
 import numpy as np
 from fractions import Fraction
 from . import common, gen
-from .common import rat, fmt_list, fmt_nd, parse_list, close
+from .common import fmt_nd, close
 
 PROP = 'C08'
 GENERATED = ['Proj']
@@ -128,7 +128,7 @@ def sweep_weights(chk, ctx, nmax, rng):
             for i in range(n + 1):
                 check_row(chk, dadi, m, n, i, None if model is None else model[i])
                 rows += 1
-    chk.stat('weights_exhaustive_nmax', 0); chk.stats['weights_exhaustive_nmax'] = nmax
+    chk.stats['weights_exhaustive_nmax'] = nmax
     chk.stats['weights_exhaustive_rows'] = rows
     # cache hits: a second call returns the same values (and rows are not aliased between keys)
     for _ in range(200 if ctx['tier'] == 'quick' else 2000):
